@@ -38,6 +38,7 @@
 import RbModel.Lemmas.Flags
 import RbModel.Lemmas.FlagCarry
 import RbModel.Lemmas.Stch
+import RbModel.Lemmas.HangulFlags
 import RbModel.Lemmas.GposFlag
 import RbModel.Gen.GposWorked
 import RbModel.Lemmas.MatchSpanFlags
@@ -304,6 +305,195 @@ theorem C03_stch_witness :
       (fun r => r.map (fun g => (g.gid, g.cluster, g.mask, g.adv, g.xoff)))
       = .ok [(1, 1, 3, 500, 0), (2, 0, 0, 0, -500), (3, 0, 0, 0, -400), (3, 0, 0, 0, -348), (3, 0, 0, 0, -296),
              (3, 0, 0, 0, -244), (3, 0, 0, 0, -192), (3, 0, 0, 0, -140), (4, 0, 0, 0, -80)] := by rfl
+
+/-! ### the Hangul shaper's text pre-processing (HangulBuf.lean: preprocess_text_hangul on the buffer model, masks included;
+    tied to the crate by the `hangul-pre-flags` stream)
+
+  Whenever the decision for a syllable depends on a character of ANOTHER cluster, the branch starts with a flag call over
+  the characters it looked at: `<LV, T>` that cannot be one glyph — LV is decomposed only BECAUSE a trailing jamo follows
+  (`C03_hangul_decomposition_flagged`); `<L, V, T?>` composed or tagged as one syllable (`C03_hangul_conjoining_flagged`); a
+  tone mark that is moved in front of the syllable before it (`C03_hangul_tone_flagged`: the syllable's glyphs; the mark
+  itself is a grapheme continuation, merged at level 0 and flagged by the cluster formation at level 1).  The flag calls are
+  the `unsafe_to_break` / `unsafe_to_break_from_outbuffer` of Buf.lean (`C03_interior`, `C03_interior_out`): every glyph of
+  the span outside its minimum cluster is flagged, nothing else changes; what follows in the branch (`decomposeS`, `lvTail`,
+  `toneTail`) copies glyph records with their masks (`replace_glyphs`, `next_glyph`) or merges the clusters
+  (`merge_out_clusters`). -/
+
+open RbModel.HangulBuf in
+/-- **the flag call between LV and T** (`buffer.unsafe_to_break(idx, idx + 2)`): no panic; of the two glyphs the one with the
+    LARGER cluster value gets `mask |= UNSAFE_TO_BREAK | UNSAFE_TO_CONCAT` (none if they share a cluster), nothing else in the
+    buffer changes.  Every level, both cluster orders, every mask content. -/
+theorem C03_hangul_flag_call (b : Buf) (x0 x1 : Info) (h2 : b.idx + 2 ≤ b.len) (hlen : b.len ≤ b.info.length)
+    (hx0 : b.info[b.idx]? = some x0) (hx1 : b.info[b.idx + 1]? = some x1)
+    (hu0 : x0.cluster ≤ U32MAX) (hu1 : x1.cluster ≤ U32MAX) :
+    ∃ b', flagLVandT b = .ok b' ∧ b' = { b with info := b'.info, scratch := b'.scratch } ∧
+      b'.info.length = b.info.length ∧
+      (∀ j, j ≠ b.idx → j ≠ b.idx + 1 → b'.info[j]? = b.info[j]?) ∧
+      b'.info[b.idx]? = some (if x1.cluster < x0.cluster then orMask (Flag.UNSAFE_TO_BREAK ||| Flag.UNSAFE_TO_CONCAT) x0 else x0) ∧
+      b'.info[b.idx + 1]? = some (if x0.cluster < x1.cluster then orMask (Flag.UNSAFE_TO_BREAK ||| Flag.UNSAFE_TO_CONCAT) x1 else x1) := by
+  have hu : ∀ j x, b.idx ≤ j → j < b.idx + 2 → b.info[j]? = some x → x.cluster ≤ U32MAX := by
+    intro j x hj1 hj2 hx
+    have : j = b.idx ∨ j = b.idx + 1 := by omega
+    rcases this with rfl | rfl
+    · rw [hx0] at hx; cases hx; exact hu0
+    · rw [hx1] at hx; cases hx; exact hu1
+  obtain ⟨b', m, hr, ⟨hlb, jm, xm, hjm1, hjm2, hxm, hcm⟩, hupd, hb'⟩ :=
+    C03_interior b b.idx (b.idx + 2) (by omega) h2 hlen hu (monoRange_pair b.info b.idx x0 x1 hx0 hx1)
+  have hm0 : m ≤ x0.cluster := hlb b.idx x0 (Nat.le_refl _) (by omega) hx0
+  have hm1 : m ≤ x1.cluster := hlb (b.idx + 1) x1 (by omega) (by omega) hx1
+  have hmin : m = x0.cluster ∨ m = x1.cluster := by
+    have : jm = b.idx ∨ jm = b.idx + 1 := by omega
+    rcases this with rfl | rfl
+    · rw [hx0] at hxm; cases hxm; exact Or.inl hcm.symm
+    · rw [hx1] at hxm; cases hxm; exact Or.inr hcm.symm
+  refine ⟨b', hr, hb', hupd.1, ?_, ?_, ?_⟩
+  · intro j hj0 hj1
+    rw [hupd.2 j]
+    cases hy : b.info[j]? with
+    | none => rfl
+    | some y =>
+      have : ¬ (b.idx ≤ j ∧ j < b.idx + 2 ∧ neCl m y = true) := by omega
+      simp [this]
+  · rw [hupd.2 b.idx, hx0]
+    simp only [Option.map_some, Option.some.injEq]
+    by_cases hc : x1.cluster < x0.cluster
+    · have : neCl m x0 = true := by simp [neCl]; omega
+      simp [this, hc]
+    · have : neCl m x0 = false := by simp [neCl]; omega
+      simp [this, hc]
+  · rw [hupd.2 (b.idx + 1), hx1]
+    simp only [Option.map_some, Option.some.injEq]
+    by_cases hc : x0.cluster < x1.cluster
+    · have : neCl m x1 = true := by simp [neCl]; omega
+      simp [this, hc]
+    · have : neCl m x1 = false := by simp [neCl]; omega
+      simp [this, hc]
+
+
+example : ∃ (b : Buf) (x0 x1 : Info), b.idx + 2 ≤ b.len ∧ b.len ≤ b.info.length ∧ b.info[b.idx]? = some x0 ∧
+    b.info[b.idx + 1]? = some x1 ∧ x0.cluster ≤ U32MAX ∧ x1.cluster ≤ U32MAX :=
+  ⟨{ info := [{ gid := 0xAC00 }, { gid := 0x11A8, cluster := 1 }], len := 2 }, { gid := 0xAC00 }, { gid := 0x11A8, cluster := 1 },
+    by decide, by decide, rfl, rfl, by decide, by decide⟩
+
+open RbModel.HangulBuf RbModel.Hangul in
+/-- **LV decomposed because a trailing jamo follows ⇒ LV | T flagged.**  `cur(0)` is an LV syllable the font maps, `cur(1)` a
+    trailing jamo (combining U+11A8..11C2 or old Hangul), the font has the L and V jamo and cannot render the pair as one LVT
+    glyph: the `is_combined_s` branch is `decomposeS` run on the buffer `b'` the flag call leaves — LV alone would have stayed
+    LV — and in `b'` the T (ascending clusters; the LV in a reversed buffer) carries UNSAFE_TO_BREAK unless both share one
+    cluster.  For every buffer, position, cluster level and font. -/
+theorem C03_hangul_decomposition_flagged (c : Hangul.Cfg) (b : Buf) (x0 x1 : Info) (h2 : b.idx + 2 ≤ b.len)
+    (hlen : b.len ≤ b.info.length) (hx0 : b.info[b.idx]? = some x0) (hx1 : b.info[b.idx + 1]? = some x1)
+    (hu0 : x0.cluster ≤ U32MAX) (hu1 : x1.cluster ≤ U32MAX)
+    (hlv : (sIndices x0.gid).2.2 = 0) (ht : isT x1.gid = true)
+    (hS : c.has x0.gid = true) (hj : hasJamo c x0.gid = true)
+    (hno : (isCombiningT x1.gid && c.has (x0.gid + (x1.gid - Gen.Hangul.TBase))) = false) :
+    ∃ b', flagLVandT b = .ok b' ∧ stepS c b x0.gid = decomposeS c b' x0.gid ∧
+      b' = { b with info := b'.info, scratch := b'.scratch } ∧ b'.info.length = b.info.length ∧
+      (∀ j, j ≠ b.idx → j ≠ b.idx + 1 → b'.info[j]? = b.info[j]?) ∧
+      b'.info[b.idx]? = some (if x1.cluster < x0.cluster then orMask (Flag.UNSAFE_TO_BREAK ||| Flag.UNSAFE_TO_CONCAT) x0 else x0) ∧
+      b'.info[b.idx + 1]? = some (if x0.cluster < x1.cluster then orMask (Flag.UNSAFE_TO_BREAK ||| Flag.UNSAFE_TO_CONCAT) x1 else x1) := by
+  obtain ⟨b', hr, h1, h3, h4, h5, h6⟩ := C03_hangul_flag_call b x0 x1 h2 hlen hx0 hx1 hu0 hu1
+  refine ⟨b', hr, ?_, h1, h3, h4, h5, h6⟩
+  have h := stepS_LV_T c b x0 x1 h2 hx1 hlv ht hS hj hno
+  rw [hr, hb_ok_bind] at h
+  exact h
+
+
+example : ∃ (c : Hangul.Cfg) (b : Buf) (x0 x1 : Info), b.idx + 2 ≤ b.len ∧ b.len ≤ b.info.length ∧
+    b.info[b.idx]? = some x0 ∧ b.info[b.idx + 1]? = some x1 ∧ (HangulBuf.sIndices x0.gid).2.2 = 0 ∧ Hangul.isT x1.gid = true ∧
+    c.has x0.gid = true ∧ HangulBuf.hasJamo c x0.gid = true ∧
+    (Hangul.isCombiningT x1.gid && c.has (x0.gid + (x1.gid - Gen.Hangul.TBase))) = false :=
+  ⟨lvFont, { info := [{ gid := 0xAC00 }, { gid := 0x11A8, cluster := 1 }], len := 2 }, { gid := 0xAC00 },
+    { gid := 0x11A8, cluster := 1 }, by decide, by decide, rfl, rfl, by decide, by decide, by decide, by decide, by decide⟩
+
+/-- the whole routine on closed instances, as the crate answers the same requests (`hangul prem 1 0 …`): level 1, font with
+    U+AC00, U+1100, U+1161, U+11A8, U+11C3 and no LVT syllable: `<AC00, 11A8>` and `<AC00, 11C3>` come out as three tagged
+    jamo, the T in its own cluster WITH the flags; `<AC00>` alone stays the precomposed glyph -/
+theorem C03_hangul_decomposition_witness :
+    HangulBuf.preprocess lvFont [(0xAC00, 0), (0x11A8, 1)] = .ok [(0x1100, 0, 1, 0), (0x1161, 0, 2, 0), (0x11A8, 1, 3, 3)] ∧
+    HangulBuf.preprocess lvFont [(0xAC00, 0), (0x11C3, 1)] = .ok [(0x1100, 0, 1, 0), (0x1161, 0, 2, 0), (0x11C3, 1, 3, 3)] ∧
+    HangulBuf.preprocess lvFont [(0xAC00, 0)] = .ok [(0xAC00, 0, 0, 0)] := by
+  refine ⟨?_, ?_, ?_⟩ <;> rfl
+
+
+open RbModel.HangulBuf in
+/-- `<L,V,T?>`: the branch starts with `unsafe_to_break(idx, idx + offset)` over the two or three jamo -/
+theorem C03_hangul_conjoining_flagged (c : Hangul.Cfg) (b : Buf) (l v t off : Nat)
+    (ht : trailing b = .ok t) (hoff : off = if t != 0 then 3 else 2)
+    (h2 : b.idx + off ≤ b.len) (hlen : b.len ≤ b.info.length)
+    (hu32 : ∀ j x, b.idx ≤ j → j < b.idx + off → b.info[j]? = some x → x.cluster ≤ U32MAX)
+    (hmono : MonoRange b.info b.idx (b.idx + off)) :
+    ∃ b' m, flagLVT b off = .ok b' ∧ stepLV c b l v = lvTail c b' l v t ∧
+      IsRangeMin b.info b.idx (b.idx + off) m ∧
+      Upd b.info b'.info b.idx (b.idx + off) (neCl m) (orMask (Flag.UNSAFE_TO_BREAK ||| Flag.UNSAFE_TO_CONCAT)) ∧
+      b' = { b with info := b'.info, scratch := b'.scratch } := by
+  have ho : 0 < off := by rw [hoff]; split <;> omega
+  obtain ⟨b', m, hr, hmin, hupd, hb'⟩ := C03_interior b b.idx (b.idx + off) (by omega) h2 hlen hu32 hmono
+  refine ⟨b', m, hr, ?_, hmin, hupd, hb'⟩
+  unfold stepLV
+  rw [ht, hb_ok_bind, ← hoff]
+  have hr' : flagLVT b off = .ok b' := hr
+  rw [hr', hb_ok_bind]
+
+
+example : ∃ (b : Buf) (t off : Nat), HangulBuf.trailing b = .ok t ∧ (off = if t != 0 then 3 else 2) ∧ b.idx + off ≤ b.len ∧
+    b.len ≤ b.info.length :=
+  ⟨{ info := [{ gid := 0x1100 }, { gid := 0x1161, cluster := 1 }, { gid := 0x11A8, cluster := 2 }], len := 3 }, 0x11A8, 3,
+    rfl, rfl, by decide, by decide⟩
+
+open RbModel.HangulBuf in
+/-- tone mark after a valid syllable `out[start, out_len)`: the branch starts with
+    `unsafe_to_break_from_outbuffer(start, idx)` over the syllable's glyphs -/
+theorem C03_hangul_tone_flagged (c : Hangul.Cfg) (st : HangulBuf.St) (u : Nat)
+    (hsyl : st.start < st.end_) (hend : st.end_ = st.b.outLen)
+    (hho : st.b.haveOutput = true) (hol : st.b.outLen ≤ st.b.outArr.length)
+    (hie : st.b.idx ≤ st.b.len) (hlen : st.b.len ≤ st.b.info.length)
+    (hu1 : ∀ j x, st.start ≤ j → j < st.b.outLen → st.b.outArr[j]? = some x → x.cluster ≤ U32MAX)
+    (hmo : MonoRange st.b.outArr st.start st.b.outLen) :
+    ∃ b' m o1, flagTone st.b st.start = .ok b' ∧ stepTone c st u = toneTail c b' st.start st.end_ u ∧
+      IsRangeMin st.b.outArr st.start st.b.outLen m ∧
+      Upd st.b.outArr o1 st.start st.b.outLen (neCl m) (orMask (Flag.UNSAFE_TO_BREAK ||| Flag.UNSAFE_TO_CONCAT)) ∧
+      b'.outArr = o1 ∧ b'.idx = st.b.idx ∧ b'.outLen = st.b.outLen ∧ b'.len = st.b.len := by
+  have hs : st.start ≤ st.b.outLen := by omega
+  have hu2 : ∀ j x, st.b.idx ≤ j → j < st.b.idx → st.b.info[j]? = some x → x.cluster ≤ U32MAX := by
+    intro j x h1 h2; omega
+  have hmi : MonoRange st.b.info st.b.idx st.b.idx := by
+    left; intro i j x y h1 h2 h3; omega
+  obtain ⟨b', m, o1, hr, hlb, _, hex, hup1, hup2, hout, hb'⟩ :=
+    C03_interior_out st.b st.start st.b.idx hho hs hol (Nat.le_refl _) hie hlen hu1 hu2 (Or.inl (by omega)) hmo hmi
+  have hmin : IsRangeMin st.b.outArr st.start st.b.outLen m := by
+    refine ⟨hlb, ?_⟩
+    rcases hex with h | ⟨j, x, h1, h2, _⟩
+    · exact h
+    · omega
+  have hinfo : b'.info = (if st.b.sepOut then st.b.info else o1) := by
+    apply List.ext_getElem?
+    intro j
+    rw [hup2.2 j]
+    cases hy : (if st.b.sepOut then st.b.info else o1)[j]? with
+    | none => rfl
+    | some y =>
+      have : ¬ (st.b.idx ≤ j ∧ j < st.b.idx ∧ neCl m y = true) := by omega
+      simp [this]
+  refine ⟨b', m, o1, hr, ?_, hmin, hup1, ?_, by rw [hb'], by rw [hb'], by rw [hb']⟩
+  · unfold stepTone
+    have hc : (decide (st.start < st.end_) && st.end_ == st.b.outLen) = true := by
+      simp only [hend, beq_self_eq_true, Bool.and_true, decide_eq_true_eq]; omega
+    simp only [hc, if_true]
+    have hr' : flagTone st.b st.start = .ok b' := hr
+    rw [hr', hb_ok_bind]
+  · have hsep : b'.sepOut = st.b.sepOut := by rw [hb']
+    unfold Buf.outArr
+    rw [hsep]
+    by_cases hso : st.b.sepOut = true
+    · simp [hso, hout]
+    · have : st.b.sepOut = false := by simpa using hso
+      simp [this, hinfo]
+
+example : ∃ (st : HangulBuf.St), st.start < st.end_ ∧ st.end_ = st.b.outLen ∧ st.b.haveOutput = true ∧
+    st.b.outLen ≤ st.b.outArr.length ∧ st.b.idx ≤ st.b.len ∧ st.b.len ≤ st.b.info.length :=
+  ⟨{ b := { info := [{ gid := 0xAC00 }, { gid := 0x302E, cluster := 1 }], len := 2, idx := 1, outLen := 1, haveOutput := true },
+     start := 0, end_ := 1 }, by decide, rfl, rfl, by decide, by decide, by decide⟩
 
 /-! ### renamed glyphs: who carries the flags afterwards -/
 
